@@ -362,9 +362,9 @@ def _search_same_file(which):
         "comps = ['a', 'b', '.', '..']\n"
         "paths = ['/'.join(t) for n in range(1, 4) for t in itertools.product(comps, repeat=n)]\n"
         "def res(b, p): return pp.normpath(pp.join(b, p))\n"
-        "for here in ['.', 'sub', 'sub/deep', '../out']:\n"
+        "for here in ['.', 'sub', 'sub/deep', '../out', '../oot2', '../oot-data/x']:\n"
         "    os.environ['HERE'] = here\n"
-        "    for w in ['.', 'a', 'a/b', '..', '../c']:\n"
+        "    for w in ['.', 'a', 'a/b', '..', '../c', '../oot.bak']:\n"
         "        stepdir = res(res('/r/oot', here), w)\n"
         "        for p in paths:\n"
         f"            if {which!r} == 'translate':\n"
@@ -378,7 +378,18 @@ def _search_same_file(which):
     r = subprocess.run(["/venv/bin/python", "-c", code], cwd=extract.REPO, capture_output=True, text=True,
                        env={"PYTHONPATH": extract.REPO, "PATH": "/usr/bin:/bin"})
     return dict(reproduced=r.returncode == 1, python=code, output=(r.stdout + r.stderr)[-800:],
-                witness=dict(search="relative paths of up to 3 components over a b . .., five work directories, four HERE values"))
+                witness=dict(search="relative paths of up to 3 components over a b . .., six work directories, six HERE values "
+                                    "(inside the root, above it, and in siblings whose name extends the root's name)"))
+
+
+@replayer("C20/translate/unexpected")
+def replay_translate_unexpected(o):
+    return _search_same_file("translate")
+
+
+@replayer("C20/translate_back/unexpected")
+def replay_translate_back_unexpected(o):
+    return _search_same_file("translate_back")
 
 
 @replayer("C20/translate/post.normalized")
